@@ -181,6 +181,8 @@ pub fn header_pairs() -> Vec<(Item, Item)> {
         arr(vec![sig_valid(), sig_valid2()]),
         arr(vec![sig_valid(), sig_valid2(), sig_valid3()]),
         sig_shared_label(),
+        arr(vec![arr(vec![sig_valid()])]),
+        arr(vec![sig_valid(), arr(vec![sig_valid2()])]),
         arr(vec![sig_valid3(), sig_valid(), sig_valid2(), sig_valid4()]),
         arr(vec![]),
         sig_bad_protected(),
@@ -605,7 +607,11 @@ pub fn label_ints(thorough: bool) -> Vec<i64> {
 
 pub fn label_texts(thorough: bool) -> Vec<String> {
     let mut v: Vec<String> = vec!["".into(), "a".into(), "b".into(), "aa".into(), "ab".into(), "1".into(), "alg".into(), "\u{e9}".into(), "\u{20ac}".into(), "\u{1f600}".into(), "a\u{e9}".into(), "z".into()];
-    let lens: &[usize] = if thorough { &[22, 23, 24, 25, 255, 256, 257, 65535, 65536] } else { &[23, 24, 255, 256] };
+    // text lengths whose encodings are as long as, or one off, each integer encoding (1, 2, 3, 5, 9 bytes)
+    for n in [3usize, 4, 7, 8] {
+        v.push("c".repeat(n));
+    }
+    let lens: &[usize] = if thorough { &[22, 23, 24, 25, 255, 256, 257, 65535, 65536] } else { &[23, 24, 255, 256, 65536] };
     for n in lens {
         v.push("a".repeat(*n));
         v.push(format!("{}b", "a".repeat(*n - 1)));
